@@ -1,0 +1,17 @@
+//go:build verif
+
+// Verification hooks (build tag "verif"): re-export the core views, because internal/ packages
+// cannot be imported by the /verif harness module.  Not part of the normal build.
+
+package protocol
+
+import (
+	"go.nanomsg.org/mangos/v3"
+	"go.nanomsg.org/mangos/v3/internal/core"
+)
+
+// VerifPipeIDsInUse returns the pipe ids currently reserved process-wide.
+func VerifPipeIDsInUse() []uint32 { return core.VerifPipeIDsInUse() }
+
+// VerifPipesListed returns the ids of the pipes listed by the socket.
+func VerifPipesListed(s mangos.Socket) []uint32 { return core.VerifPipesListed(s) }
